@@ -182,6 +182,13 @@ package spec
 //@   callsite AddProduction#21 requires @empty-rule arg0.Head == unbox(rhs[0].Val, "grammar.NonTerminal") && arg0.Body == grammar.E
 //@   callsite AddProduction#22 requires @rule-alternative arg0.Head == head && arg0.Body == α
 
+// ---- C13: layout. The optional semicolon and the declaration wrappers / lists carry no information ----
+//@   ensures @layout-actions-have-no-effect (i >= 2 && i <= 8) ==> result0 == nil && result1 == nil && errs.n == old(errs.n)
+//@       && table.terminals.table.dom == old(table.terminals.table.dom) && table.terminals.table.val == old(table.terminals.table.val)
+//@       && table.nonTerminals.table.dom == old(table.nonTerminals.table.dom) && table.productions.table.dom == old(table.productions.table.dom)
+//@       && table.precedences.list == old(table.precedences.list) && (forall e *terminalEntry :: {e.definitions} e.definitions == old(e.definitions))
+//@   ensures @c0-definitions-in-canonical-order i == 0 && result1 == nil ==> defsSorted(unbox(result0, "*Spec").Definitions)
+
 // ---- C12: precedence directives (productions 12-19) ----
 //@   ensures @c19-passes-rule i == 19 && result1 == nil ==> result0 == rhs[1].Val
 //@   ensures @c17-terminal-handle i == 17 && result1 == nil ==> (let r = unbox(result0, "[]*lr.PrecedenceHandle") in
@@ -414,9 +421,14 @@ package spec
 //@   ensures errOK(result)
 //@   ensures @single-defs result == nil ==> singleDefs(t)
 
+// defsSorted(a): a is in the canonical order of definitions (A-SORT: what sort.Quick establishes with the comparator
+// Definitions$1, which looks at kind, name length and name only - never at positions)
+//@ ghost func defsSorted(a []*TerminalDef) bool
 // Definitions: exactly the definitions of the singly-defined terminals.
 //@ func (t *SymbolTable) Definitions() []*TerminalDef
 //@   requires tableOK(t)
+//@   callsite Quick assumes @A-SORT defsSorted(arg0)
+//@   ensures @canonical-order defsSorted(result)
 //@   loop[0] invariant forall j int :: {defs[j]} 0 <= j && j < len(defs) ==> defs[j] != nil && (exists a grammar.Terminal :: a in __vis0 && len(defsOf(t, a)) == 1 && defs[j] == defsOf(t, a)[0])
 //@   loop[0] invariant forall a grammar.Terminal :: {a in __vis0} a in __vis0 && len(defsOf(t, a)) == 1 ==> (exists j int :: 0 <= j && j < len(defs) && defs[j] == defsOf(t, a)[0])
 //@   ensures @nonnil forall j int :: {result[j]} 0 <= j && j < len(result) ==> result[j] != nil
